@@ -287,7 +287,9 @@ def hostile_config_arguments():
     return ID + [c_config(b".k", b"v"), c_status(), c_config(b"user.name", b"a\nb"), c_status(), c_config(b"us\ner.name", b"x"),
                  c_config(b"user.na\nme", b"x", glob=True), c_config(b".", b"v", glob=True), c_config(b"core.x", b"line\n"), c_status(),
                  c_config(b"core.editor", b"vi"), c_config(b"s.", b"empty key is storable"), W(b"f", b"1"), c_add([b"f"]), c_commit(b"c1"),
-                 c_log(1), c_config(b"a.b.c", b"v"), c_config(b"nodot", b"v"), c_status()]
+                 c_log(1), c_config(b"a.b.c", b"v"), c_config(b"nodot", b"v"), c_status(),
+                 c_config(b"user. name", b"Mallory"), c_config(b"user.name=x", b"y"), c_config(b"user.na\tme", b"z"), c_config(b"user.name ", b"q"),
+                 c_config(b"core.a=b", b"c", glob=True), W(b"f", b"2"), c_add([b"f"]), c_commit(b"c2: still Al Bo"), c_log(2)]
 
 
 def unclean_file_arguments():
@@ -315,7 +317,7 @@ ORACLE_ONLY = {"very-long-lines", "newline-names", "invalid-ignore-lines", "quot
 DIRECTED = [
     (("C04", "C09", "C18"), "unclean-file-arguments", unclean_file_arguments, "F53: a trailing slash on an existing file, a/../a/b spellings, and the empty argument for add, rm, restore"),
     (("C20", "C11", "C08", "C12"), "very-long-lines", very_long_lines, "F52: a config value and a commit subject of 70 000 bytes (the model driver is quadratic in line length: oracle only)"),
-    (("C20", "C18"), "hostile-config-arguments", hostile_config_arguments, "F51: an empty section name and line breaks in config arguments are refused with nothing written; every command still loads the configuration afterwards"),
+    (("C20", "C18"), "hostile-config-arguments", hostile_config_arguments, "F51/F54: an empty section name, line breaks, and keys that would be read back as another key (=, tab, outer blanks) are refused with nothing written; every command still loads the configuration and the identity is unchanged"),
     (("C02", "C05", "C07"), "prefix-sibling-directories", prefix_sibling_directories, "sibling directories util/ and util-test/ (lib/, lib.d/, 'lib (copy)/'): the longer name sorts first in path order; every entry must reach the commit's trees"),
     (("C13", "C17"), "inner-slash-ignore-lines", inner_slash_ignore_lines, "ignore lines with a slash in the middle and none at the end (Goit reads them as directory entries: text followed by anything)"),
     (("C17", "C13"), "ignored-name-directory-became-file", ignored_name_directory_became_file, "a tracked directory whose name an extension entry matches is replaced by a plain file of that name: the file is excluded"),
